@@ -150,6 +150,9 @@ func (ss *SessionState) sealPacketLocked(msgType MessageType, in []byte, key *[K
 func (ss *SessionState) readPacketLocked(plaintext, pkt []byte, key *[KeyLen]byte) (int, MessageType, error) {
 	plaintextLen := PlaintextLen(len(pkt))
 	ciphertextLen := plaintextLen + TagLen
+	if plaintextLen < 0 {
+		return 0, 0x0, ErrBufUnderflow
+	}
 	if plaintextLen > len(plaintext) {
 		return 0, 0x0, ErrBufOverflow
 	}
